@@ -240,6 +240,27 @@ struct Refusal {
   msg: String,
 }
 
+/// Headers are compared up to spellings that carry no information: an empty header object is no header, and a name
+/// listed twice in `crit` is listed.
+fn norm_hdr(h: &Option<Value>) -> Option<Value> {
+  let mut v = h.clone()?;
+  let o = v.as_object_mut()?;
+  if o.is_empty() {
+    return None;
+  }
+  if let Some(Value::Array(crit)) = o.get_mut("crit") {
+    let mut seen: Vec<Value> = Vec::new();
+    crit.retain(|c| {
+      let fresh = !seen.contains(c);
+      if fresh {
+        seen.push(c.clone());
+      }
+      fresh
+    });
+  }
+  Some(v)
+}
+
 fn refusal<E: std::fmt::Display>(at: &'static str) -> impl Fn(E) -> Refusal {
   move |e| Refusal { at, msg: e.to_string() }
 }
@@ -372,7 +393,7 @@ fn check_item(
   let u_seen = fixture!(header_value(item.unprotected_header()), "serialise decoded unprotected header");
   vensure!(
     obs,
-    p_seen == b.p_model,
+    norm_hdr(&p_seen) == norm_hdr(&b.p_model),
     format!("{form}-decoded-protected-header-differs"),
     "signature {idx}: decoded protected header {:?} differs from the supplied {:?}",
     p_seen,
@@ -380,7 +401,7 @@ fn check_item(
   );
   vensure!(
     obs,
-    u_seen == b.u_model,
+    norm_hdr(&u_seen) == norm_hdr(&b.u_model),
     format!("{form}-decoded-unprotected-header-differs"),
     "signature {idx}: decoded unprotected header {:?} differs from the supplied {:?}",
     u_seen,
@@ -409,7 +430,7 @@ fn check_item(
       let u_seen = fixture!(header_value(unprotected.as_deref()), "serialise verified unprotected header");
       vensure!(
         obs,
-        claims.as_ref() == payload && p_seen == b.p_model && u_seen == b.u_model,
+        claims.as_ref() == payload && norm_hdr(&p_seen) == norm_hdr(&b.p_model) && norm_hdr(&u_seen) == norm_hdr(&b.u_model),
         format!("{form}-verified-token-differs"),
         "signature {idx}: DecodedJws returned by verify differs from what was signed"
       );
@@ -577,7 +598,7 @@ fn check_enc(c: &EncCase, obs: &mut Obs) -> CheckResult {
     };
     vensure!(
       obs,
-      p_seen == b.p_model && s.header == b.u_model,
+      norm_hdr(&p_seen) == norm_hdr(&b.p_model) && norm_hdr(&s.header) == norm_hdr(&b.u_model),
       format!("{form}-token-headers-differ"),
       "signature {i}: token carries protected {:?} / unprotected {:?}, supplied {:?} / {:?}",
       p_seen,
@@ -999,9 +1020,16 @@ fn check_doc(c: &DocCase, obs: &mut Obs) -> CheckResult {
       short(jws.as_str(), 300)
     ),
     Ok(Ok(decoded)) => {
+      // The JWT calls serialise the claims themselves; `payload` is what the public `serialize_jwt` gives for the same
+      // value. The two are the same claims set, which is a JSON value, not a byte string.
+      let same_json = kind != "create_jws"
+        && matches!(
+          (serde_json::from_slice::<Value>(&decoded.claims), serde_json::from_slice::<Value>(&payload)),
+          (Ok(a), Ok(b)) if a == b
+        );
       vensure!(
         obs,
-        decoded.claims.as_ref() == payload.as_slice(),
+        decoded.claims.as_ref() == payload.as_slice() || same_json,
         format!("{kind}-verified-claims-differ"),
         "verify_jws returned claims {:?}, signed payload {:?}",
         short(&String::from_utf8_lossy(&decoded.claims), 200),
@@ -1121,6 +1149,26 @@ fn check_doc(c: &DocCase, obs: &mut Obs) -> CheckResult {
     c.wrong_nonce.clone()
   };
   let mut nonce_variants = vec![("different", mirrored().nonce(wrong))];
+  // near misses of the token's nonce: other case, a proper prefix, an extension, surrounding blanks, the empty string
+  if let Some(n) = &o.nonce {
+    let mut near: Vec<String> = vec![format!("{n} "), format!(" {n}"), format!("{n}{n}"), String::new()];
+    if let Some((cut, _)) = n.char_indices().last() {
+      near.push(n[..cut].to_string());
+    }
+    let flipped: String = n
+      .chars()
+      .map(|c| if c.is_ascii_lowercase() { c.to_ascii_uppercase() } else { c.to_ascii_lowercase() })
+      .collect();
+    near.push(flipped);
+    for candidate in near {
+      if candidate != *n {
+        nonce_variants.push(("near-miss", mirrored().nonce(candidate)));
+      }
+    }
+  } else {
+    // a token without nonce under an expected empty nonce
+    nonce_variants.push(("different", mirrored().nonce(String::new())));
+  }
   if o.nonce.is_some() {
     let mut v = mirrored();
     v.nonce = None;
